@@ -1724,6 +1724,16 @@ class C20(Property):
             {"caller": {"kind": "synthetic", "features": ["a", "xa", "xxx", "aa"], "shape": "tuple", "nctx": 3, "nact": 2, "seed": 3}},
             {"caller": {"kind": "synthetic", "features": ["xx", "x"], "shape": "list", "nctx": 3, "nact": 0, "seed": 1}},
             {"caller": {"kind": "synthetic", "features": ["xaa", "a"], "shape": "list", "nctx": 0, "nact": 3, "seed": 1}},
+            # requested terms that are letter permutations of one another are DIFFERENT terms ('xa' x-major, 'ax' a-major; 'xxa' / 'xax' /
+            # 'axx'): the simulation must build its encoder for every one of them, in the order given (seeded round i: C20-im2)
+            *[{"caller": {"kind": kind, "features": fs, "shape": shape, "nctx": nctx, "nact": nact, "seed": seed}}
+              for fs, kind, shape, nctx, nact, seed in [
+                  (["xa", "ax"], "synthetic", "list", 2, 2, 1), (["xa", "ax"], "synthetic_env", "tuple", 2, 3, 3), (["ax", "xa"], "synthetic", "list", 1, 2, 2),
+                  (["a", "xxa", "xax"], "synthetic", "list", 2, 2, 3), (["a", "xxa", "xax"], "synthetic_env", "list", 2, 1, 1),
+                  (["ax", "xa", "a"], "synthetic", "tuple", 2, 2, 1), (["ax", "xa", "a"], "synthetic_env", "list", 3, 2, 2),
+                  (["xxa", "axx", "xax"], "synthetic", "list", 2, 2, 1), (["xxa", "axx", "xax"], "synthetic_env", "tuple", 2, 1, 3),
+                  (["xa", "x", "ax", "xa"], "synthetic", "list", 2, 2, 2), (["aax", "axa", "xaa", "a"], "synthetic", "list", 1, 2, 1),
+                  (["xa", "ax", "xxa", "axx"], "synthetic_env", "list", 2, 2, 5)]],
             {"caller": {"kind": "linucb", "features": [one, "a", "ax"], "shape": "tuple", "context": P(2, 3), "actions": [P(5, 7), P(11, 13)]}},
             {"caller": {"kind": "lints", "features": [one, "a", "xxa"], "shape": "tuple", "context": {"k": "none"}, "actions": [P(5), P(11)]}},
             # histories on one encoder object (minimised seeded mutants m2-m4 of round c20b)
